@@ -493,7 +493,7 @@ func blsSingleCase[
 		}
 	}
 	if hv != expect {
-		t.Fatalf("harness: %s; altered (%s): recomposed verdict %v, expected %v", where, alt, hv, expect)
+		t.Fatalf("%s; altered (%s): the draft's Verify recomposed over the library's hash-to-curve and pairing gives %v, the verdict expected by construction is %v", where, alt, hv, expect)
 	}
 	var got bool
 	vlib.NoPanic(t, "bls Verify on "+alt, func() { got = vf.Verify(aSig, aPK, aMsg) == nil })
@@ -526,7 +526,7 @@ func blsAggCase[
 	type pkT = *bls.PublicKey[PK, PKFE, SG, SGFE, tGT, tSC]
 	alt := rapid.SampledFrom([]string{
 		"none", "none", "none", "drop-sig", "drop-key", "foreign-signer", "swap-msgs", "swap-keys", "identity-key", "torsion-key",
-		"identity-sig", "msg-bit", "pop-wrong", "pop-count", "pops-on-non-pop", "wrong-dst", "len-mismatch", "key-other", "identity-key-consistent",
+		"identity-sig", "msg-bit", "pop-wrong", "pop-count", "pops-on-non-pop", "wrong-dst", "len-mismatch", "key-other", "identity-key-consistent", "dup-msg",
 	}).Draw(t, "alt")
 	alg := rapid.SampledFrom(allAlgs).Draw(t, "alg")
 	minN := 1
@@ -551,6 +551,14 @@ func blsAggCase[
 	}
 	if alt == "pop-wrong" {
 		layouts = []string{"distinct", "same", "one-dup"}
+	}
+	if alt == "dup-msg" {
+		// honest aggregate in which two or all signers signed the same message: valid under
+		// MessageAugmentation and POP, refused under Basic
+		minN, layouts = 2, []string{"same", "one-dup"}
+		if rapid.Bool().Draw(t, "dupUnderBasic") {
+			alg = bls.Basic
+		}
 	}
 	n := rapid.IntRange(minN, 6).Draw(t, "n")
 	layout := rapid.SampledFrom(layouts).Draw(t, "layout")
@@ -583,7 +591,16 @@ func blsAggCase[
 		signers, msgs, sigs, pks = append(signers, sg), append(msgs, m), append(sigs, s), append(pks, sg.pk)
 		keys = append(keys, hKey[PK]{v: sg.pk.Value(), inSub: true})
 		if alg == bls.POP {
+			if s.Pop() == nil {
+				t.Fatalf("bls/%s/pop: signature without proof of possession", e.name)
+			}
 			pops = append(pops, s.Pop())
+			if i == 0 {
+				e.checkSig(t, sg.d, e.keyBytes(t, sg.pk.Value()), draftPopDST(e.sigGroup), s.Pop().Value(), "proof of possession")
+			}
+		}
+		if i == 0 {
+			e.checkSig(t, sg.d, e.effMsg(t, alg, sg.pk.Value(), m), draftDST(alg, e.sigGroup), s.Value(), "signature")
 		}
 	}
 	distinct := func(ms [][]byte) bool {
@@ -763,14 +780,14 @@ func blsAggCase[
 	// expected by construction
 	expect := false
 	switch alt {
-	case "none":
+	case "none", "dup-msg":
 		expect = alg != bls.Basic || distinct(msgs)
 	case "swap-keys":
 		// keys and their proofs moved together but messages stayed: wrong pairing of (key, message)
 		expect = false
 	}
 	if hv != expect {
-		t.Fatalf("harness: bls/%s/%s n=%d layout=%s alt=%s: recomposed verdict %v, expected %v", e.name, algNames[alg], n, layout, alt, hv, expect)
+		t.Fatalf("bls/%s/%s n=%d (sk0=%s) layout=%s alt=%s: the draft's AggregateVerify recomposed over the library's hash-to-curve and pairing gives %v, the verdict expected by construction is %v", e.name, algNames[alg], n, signers[0].d, layout, alt, hv, expect)
 	}
 	vf, err := sch.Verifier(vopts...)
 	if err != nil {
@@ -789,8 +806,10 @@ func blsAggCase[
 			e.name, algNames[alg], n, signers[0].d, layout, alt, at, got, expect)
 	}
 	cls := alt
-	if alt == "none" && !expect {
+	if (alt == "none" || alt == "dup-msg") && !expect {
 		cls = "duplicate-message-under-basic"
+	} else if alt == "dup-msg" {
+		cls = "duplicate-message-allowed"
 	}
 	vlib.Case(test, vlib.Desc("bls", e.name+"/"+algNames[alg]+"/aggregate/"+layout, "bls12381", "sha256-sswu", cls, n), true,
 		"variant="+e.name, "alg="+algNames[alg], "layout="+layout, "alt="+cls, fmt.Sprintf("n=%d", n), fmt.Sprintf("expected-valid=%v", expect))
